@@ -129,7 +129,21 @@ impl Ls {
         use nix::unistd::{Gid, Group, Uid, User};
         use std::os::unix::fs::{MetadataExt, PermissionsExt};
 
-        let metadata = file_info.metadata().unwrap();
+        // The entry may have vanished since it was found (e.g. an earlier -delete).
+        let metadata = match file_info.metadata() {
+            Ok(metadata) => metadata,
+            Err(e) => {
+                writeln!(
+                    &mut stderr(),
+                    "Error getting metadata for {}: {}",
+                    file_info.path().to_string_lossy(),
+                    e
+                )
+                .unwrap();
+                matcher_io.set_exit_code(1);
+                return;
+            }
+        };
 
         let inode_number = metadata.ino();
         let number_of_blocks = {
@@ -152,11 +166,18 @@ impl Ls {
         let hard_links = metadata.nlink();
         let user = {
             let uid = metadata.uid();
-            User::from_uid(Uid::from_raw(uid)).unwrap().unwrap().name
+            // An id without a passwd entry is printed numerically.
+            User::from_uid(Uid::from_raw(uid))
+                .ok()
+                .flatten()
+                .map_or_else(|| uid.to_string(), |user| user.name)
         };
         let group = {
             let gid = metadata.gid();
-            Group::from_gid(Gid::from_raw(gid)).unwrap().unwrap().name
+            Group::from_gid(Gid::from_raw(gid))
+                .ok()
+                .flatten()
+                .map_or_else(|| gid.to_string(), |group| group.name)
         };
         let size = metadata.size();
         let last_modified = {
